@@ -5,6 +5,7 @@
 #include <cstdint>
 #include <string>
 #include <vector>
+#include <memory>
 
 #include <ipr/impl>
 
@@ -339,10 +340,98 @@ namespace {
       rep.count("traces");
    }
 
+   // More than one Lexicon.  The sets are values and the basis is the same for every Lexicon, so what one Lexicon answers cannot
+   // depend on what another one was asked, nor on another one being created or destroyed in between.  Histories over two slots A
+   // and B (both alive at the start): ask A or B one of 12 questions (name lookups in both families incl. names of the other
+   // family, decompositions of 4 specifier and 2 qualifier sets), destroy B, create B again.  Every answer is checked against what
+   // the question alone determines.
+   void several_lexicons(int depth)
+   {
+      struct Q { int kind; const char8_t* word; unsigned long long value; const char* text; };       // kind 0 specifiers(name) 1 qualifiers(name) 2 decompose(Specifiers) 3 decompose(Qualifiers)
+      std::vector<ipr::Specifiers> sval;
+      std::vector<ipr::Qualifiers> qval;
+      {
+         ipr::impl::Lexicon cold;
+         for (auto w : spec_names) sval.push_back(cold.specifiers(ipr::Basic_specifier{ cold.get_logogram(cold.get_string(w)) }));
+         for (auto w : qual_names) qval.push_back(cold.qualifiers(ipr::Basic_qualifier{ cold.get_logogram(cold.get_string(w)) }));
+      }
+      auto sbits = [&](std::initializer_list<int> is) { ipr::Specifiers v{ }; for (int i : is) v |= sval[std::size_t(i)]; return static_cast<unsigned long long>(std::underlying_type_t<ipr::Specifiers>(v)); };
+      auto qbits = [&](std::initializer_list<int> is) { ipr::Qualifiers v{ }; for (int i : is) v |= qval[std::size_t(i)]; return static_cast<unsigned long long>(std::underlying_type_t<ipr::Qualifiers>(v)); };
+      unsigned long long all18 = 0; for (auto v : sval) all18 |= static_cast<unsigned long long>(std::underlying_type_t<ipr::Specifiers>(v));
+      const Q qs[] = {
+         { 0, spec_names[0], 0, "specifiers(first basic name)" }, { 0, spec_names[7], 0, "specifiers(eighth basic name)" }, { 0, u8"const", 0, "specifiers(const)" },
+         { 1, u8"const", 0, "qualifiers(const)" }, { 1, u8"restrict", 0, "qualifiers(restrict)" }, { 1, spec_names[0], 0, "qualifiers(a specifier name)" },
+         { 2, nullptr, 0, "decompose(no specifier)" }, { 2, nullptr, sbits({ 0 }), "decompose(one specifier)" }, { 2, nullptr, sbits({ 1, 6, 9 }), "decompose(three specifiers)" }, { 2, nullptr, all18, "decompose(all specifiers)" },
+         { 3, nullptr, qbits({ 0 }), "decompose(const)" }, { 3, nullptr, qbits({ 0, 1, 2 }), "decompose(const volatile restrict)" },
+      };
+      constexpr int NQ = int(sizeof qs / sizeof qs[0]);
+      const int N = 2 * NQ + 2;                       // letters: 0..NQ-1 ask A, NQ..2NQ-1 ask B, 2NQ destroy B, 2NQ+1 create B
+      auto letter = [&](int c) { return c < NQ ? std::string("A.") + qs[c].text : c < 2 * NQ ? std::string("B.") + qs[c - NQ].text : c == 2 * NQ ? std::string("destroy B") : std::string("create B"); };
+      auto ask = [&](ipr::impl::Lexicon& lex, const Q& q) -> std::string {
+         rep.count("transitions");
+         if (q.kind <= 1) {
+            int basic = -1;
+            for (int i = 0; q.kind == 0 and i < 18; ++i) if (std::u8string_view(q.word) == spec_names[i]) basic = i;
+            for (int i = 0; q.kind == 1 and i < 3; ++i) if (std::u8string_view(q.word) == qual_names[i]) basic = i;
+            auto& logo = lex.get_logogram(lex.get_string(q.word));
+            try {
+               if (q.kind == 0) { auto v = lex.specifiers(ipr::Basic_specifier{ logo }); if (basic < 0) return "answered although it is not a basic specifier"; if (not (v == sval[std::size_t(basic)])) return "answered with another set"; }
+               else { auto v = lex.qualifiers(ipr::Basic_qualifier{ logo }); if (basic < 0) return "answered although it is not a basic qualifier"; if (not (v == qval[std::size_t(basic)])) return "answered with another set"; }
+            }
+            catch (...) { if (basic >= 0) return "refused although it names a basic element"; }
+            return "";
+         }
+         unsigned long long got = 0; std::size_t n = 0;
+         try {
+         if (q.kind == 2) { auto r = lex.decompose(ipr::Specifiers{ static_cast<std::underlying_type_t<ipr::Specifiers>>(q.value) }); n = r.size(); for (auto& b : r) got |= static_cast<unsigned long long>(std::underlying_type_t<ipr::Specifiers>(lex.specifiers(b))); }
+         else { auto r = lex.decompose(ipr::Qualifiers{ static_cast<std::underlying_type_t<ipr::Qualifiers>>(q.value) }); n = r.size(); for (auto& b : r) got |= static_cast<unsigned long long>(std::underlying_type_t<ipr::Qualifiers>(lex.qualifiers(b))); }
+         }
+         catch (...) { return "throws (an element of the decomposition is refused as a basic name, or the decomposition itself fails)"; }
+         if (got != q.value or n != std::size_t(__builtin_popcountll(q.value))) return "is not the exact decomposition (" + std::to_string(n) + " elements)";
+         return "";
+      };
+      std::vector<int> h(std::size_t(depth), 0);
+      long long job = 0;
+      for (int d = 1; d <= depth; ++d) {
+         std::vector<int> idx(std::size_t(d), 0);
+         for (;;) {
+            if (opt.mine(job++)) {
+               auto a = std::make_unique<ipr::impl::Lexicon>();
+               auto b = std::make_unique<ipr::impl::Lexicon>();
+               bool admissible = true;
+               for (int k = 0; k < d and admissible; ++k) {
+                  const int c = idx[std::size_t(k)];
+                  std::string wrong;
+                  if (c < NQ) wrong = ask(*a, qs[c]);
+                  else if (c < 2 * NQ) { if (not b) admissible = false; else wrong = ask(*b, qs[c - NQ]); }
+                  else if (c == 2 * NQ) { if (not b) admissible = false; else b.reset(); }
+                  else { if (b) admissible = false; else b = std::make_unique<ipr::impl::Lexicon>(); }
+                  if (not wrong.empty()) {
+                     std::string text;
+                     for (int j = 0; j <= k; ++j) text += std::string(j ? " ; " : "") + letter(idx[std::size_t(j)]);
+                     std::vector<long long> ops(idx.begin(), idx.begin() + k + 1);
+                     rep.violation(std::string("C10:several-lexicons:") + (qs[c % NQ].kind == 0 ? "specifiers" : qs[c % NQ].kind == 1 ? "qualifiers" : "decompose"), k,
+                                   "with two Lexicons A and B: [" + text + "]: the last request " + wrong, vf::JObj{}.str("pass", "C10").str("kind", "several-lexicons").raw("ops", vf::jarr(ops)).done());
+                     break;
+                  }
+               }
+               rep.count("states", d);
+               rep.count("traces");
+            }
+            int k = d - 1;
+            while (k >= 0 and ++idx[std::size_t(k)] == N) idx[std::size_t(k--)] = 0;
+            if (k < 0) break;
+         }
+         if (opt.expired()) { rep.cap("deadline during several-lexicon histories"); break; }
+      }
+      if (opt.shard == 0) rep.info("several_lexicons", vf::JObj{}.num("letters", N).num("depth", depth).done());
+   }
+
    void run(bool all_pairs)
    {
       if (opt.shard == 0) { full_width_laws<ipr::Specifiers>("spec"); full_width_laws<ipr::Qualifiers>("qual"); }
       request_histories(all_pairs);
+      several_lexicons(all_pairs ? 4 : 3);
       ipr::impl::Lexicon lex;
       {
          Algebra<SpecKind> a{ lex };
